@@ -526,7 +526,7 @@ static uint64_t p0_count(int thorough) { (void) thorough; return 4 * ipow(ALPHA,
 static void letter(op_t * o, int a, uint64_t salt) {
     memset(o, 0, sizeof *o);
     switch (a) {
-        case 0: o->kind = OP_PUSH; o->code = -100; break;
+        case 0: o->kind = OP_PUSH; o->code = (salt % 4 == 1) ? 0 : -100; break; /* 0 is a code like any other: an entry, counted, popped, cleared */
         case 1: o->kind = OP_PUSHT; o->code = -200; o->text = txt_short; o->len = 2; break;
         case 2: o->kind = OP_PUSHT; o->code = -100; o->text = txt_quote; o->len = 3; break;
         case 3: o->kind = OP_POP; break;
@@ -589,7 +589,7 @@ static size_t rnd_len(vh_rng_t * rng) {
         default: return vh_below(rng, 301);
     }
 }
-static const int16_t rnd_codes[] = { -100, -113, -200, -222, -310, -350, -410, -500, 1, 2, 100, 32767, -32768, -1, -999 };
+static const int16_t rnd_codes[] = { -100, -113, -200, -222, -310, -350, -410, -500, 1, 2, 100, 32767, -32768, -1, -999, 0, 0 };
 
 static void p1_run(uint64_t idx, vh_rng_t * rng) {
     int N, nops, i, charset, hold, pw_push, p_text, p_fail_num;
